@@ -140,9 +140,15 @@ CHECKS.update({
         "Every parameter and result of generated functions, methods and constructors draws one of the five (hint, docstring type) combinations; the stub type of each slot under CODE and DOCSTRING, the byte-identity of all files between WARN and IGNORE, and the multiset of 'Different type hint and docstring types' records on the root logger (exactly one per differing slot under WARN, none under IGNORE) are checked.",
         "§5 C14",
     ),
+    "C13": (
+        "E1 package engine + E3 history engine + E4 relation engine",
+        "property-based testing with unique tokens in every documentation unit, each model rendered in four docstring styles (cross-style relation through one style-independent expected comment); Hypothesis RuleBasedStateMachine querying one DocstringParser in arbitrary order against the model",
+        "Documentation models whose every line carries a unique token are rendered as NumPy, Google, reST and plain docstrings (declaration order, constructor position and repeated parameter / method names varied), and the doc comment of every stub declaration is compared line for line with the comment the model implies; state machines ask one parser for class, function, parameter, attribute, result and constructor documentation in arbitrary order and every answer must equal the model regardless of history.",
+        "§5 C13",
+    ),
 })
 
-NOT_YET = "check not built yet in this session (work in progress, see DESIGN.md §9)"
+NOT_YET = "check not built yet"
 
 
 def main() -> int:
